@@ -473,9 +473,17 @@ func genC09(t *rapid.T) C09Case {
 		nc = 2
 	}
 	for i := 0; i < nc; i++ {
-		c.Sizes = append(c.Sizes, rapid.IntRange(0, 6).Draw(t, "size"))
+		maxSize := 6
+		if kit.Thorough() {
+			maxSize = 10
+		}
+		c.Sizes = append(c.Sizes, rapid.IntRange(0, maxSize).Draw(t, "size"))
 	}
-	n := rapid.IntRange(1, 10).Draw(t, "nops")
+	maxOps := 10
+	if kit.Thorough() {
+		maxOps = 20
+	}
+	n := rapid.IntRange(1, maxOps).Draw(t, "nops")
 	for i := 0; i < n; i++ {
 		op := C09Op{C: rapid.IntRange(0, nc-1).Draw(t, "c")}
 		switch k := rapid.IntRange(0, 14).Draw(t, "op"); {
@@ -521,7 +529,7 @@ func genC09(t *rapid.T) C09Case {
 	return c
 }
 
-const c09Rule = "sequences of append (stored and unknown roots mixed), free (any positions, any order, duplicates, out of range), sector-roots ranges and faulty exchanges (renter stops/closes/stalls/truncates at a message boundary, or sends a wrong signature) on 1-2 contracts of 0..6 sectors against the real rhp4.Server; after every attempt MetaRoot(host roots) = committed FileMerkleRoot, count x SectorSize = Filesize, failed/abandoned attempts leave the by-value snapshot (revision, roots, balances) unchanged, successes equal the list model and core's ReviseFor*. Non-trivial = a free of >= 2 positions where a replacement comes from a position that is itself freed, or an abort after the host's first response; distinct by hash of the case."
+const c09Rule = "sequences of append (stored and unknown roots mixed), free (any positions, any order, duplicates, out of range), sector-roots ranges and faulty exchanges (renter stops/closes/stalls/truncates at a message boundary, or sends a wrong signature) on 1-2 contracts of 0..6 (thorough 0..10) sectors against the real rhp4.Server; after every attempt MetaRoot(host roots) = committed FileMerkleRoot, count x SectorSize = Filesize, failed/abandoned attempts leave the by-value snapshot (revision, roots, balances) unchanged, successes equal the list model and core's ReviseFor*. Non-trivial = a free of >= 2 positions where a replacement comes from a position that is itself freed, or an abort after the host's first response; distinct by hash of the case."
 
 var c09Assumptions = []string{
 	"host = rhp4.Server over the repository's reference testutil.EphemeralContractor / EphemeralSectorStore on the all-v2 test network, reached through an in-memory buffered stream (net.Conn obligations only)",
